@@ -26,6 +26,7 @@ structure Instr where
   mn : String
   ops : List Opd
   line : Nat      -- source line in the .s file (diagnostics only)
+  vw : Nat        -- widest vector register named by the operands, in bytes (0 = none): the access width of vector loads/stores
 deriving DecidableEq, Repr
 
 end SMGo.Model.ISA
